@@ -12,9 +12,10 @@ verus! {
 // ---------------------------------------------------------------- environment (assumed, not verified)
 pub axiom fn ax_job_key_model() ensures vstd::std_specs::hash::obeys_key_model::<Job>();
 
-/// abstract identity of a job (real code: `enum Job { Single(Arc<Single>), Multi(Arc<Multi>) }` with pointer identity)
+/// abstract identity of a job: the real shape `enum Job { Single(Arc<Single>), Multi(Arc<Multi>) }` with the pointers
+/// (pointer identity in the real code) replaced by opaque ids
 #[derive(PartialEq, Eq, Hash, Clone, Copy)]
-pub struct Job { pub id: u64 }
+pub enum Job { Single(u64), Multi(u64) }
 
 #[verifier::external_body]
 pub struct Single { _p: () }
@@ -73,6 +74,21 @@ pub struct Tour {
 }
 
 impl Tour {
+    // `index` / `index_last` are iterator `position` / `rposition` chains (outside Verus): offered to the code under
+    // contract by their assumed contracts only (first / last activity of the job), not verified here
+    #[verifier::external_body]
+    fn index(&self, job: &Job) -> (r: Option<usize>)
+        ensures r is None <==> !serves(self.acts(), *job),
+                r is Some ==> r->0 < self.acts().len() && self.acts()[r->0 as int].job_of() == Some(*job)
+                    && forall|i: int| 0 <= i < r->0 ==> (#[trigger] self.acts()[i]).job_of() != Some(*job)
+    { unimplemented!() }
+    #[verifier::external_body]
+    fn index_last(&self, job: &Job) -> (r: Option<usize>)
+        ensures r is None <==> !serves(self.acts(), *job),
+                r is Some ==> r->0 < self.acts().len() && self.acts()[r->0 as int].job_of() == Some(*job)
+                    && forall|i: int| r->0 < i < self.acts().len() ==> (#[trigger] self.acts()[i]).job_of() != Some(*job)
+    { unimplemented!() }
+
     // abstract view
     pub closed spec fn acts(&self) -> Seq<Activity> { self.activities@ }
     pub closed spec fn jobset(&self) -> Set<Job> { self.jobs@ }
